@@ -20,11 +20,11 @@ MOVES = np.array([[0, 0], [-1, 0], [1, 0], [0, -1], [0, 1], [0, 0]])
 class A(Adapter):
     name = "lbf"
     lean = "lbf"
-    serves = {"C04", "C05", "C07", "C08", "C09", "C10", "C11", "C12"}
+    serves = {"C01", "C04", "C05", "C07", "C08", "C09", "C10", "C11", "C12"}
     terminate_on_invalid = False
     max_steps = 30
     episode_cap = 260
-    ops = ("state", "step", "judge", "instance")
+    ops = ("state", "step", "judge", "instance", "bounds")
     state_fields = ["agents", "foods", "step_count"]
 
     def configs(self, tier):
